@@ -304,3 +304,12 @@ def harnesses():
         out.append(h_hashed_iterable(n, d))
     out += [h_evaluation_start(), h_canary()]
     return out
+
+
+def harnesses_thorough():
+    """thorough tier: shared-domain sources up to length 6"""
+    out = harnesses()
+    extra = [h_hashed_iterable(5, None), h_hashed_iterable(5, 2), h_hashed_iterable(6, None), h_hashed_iterable(6, 0)]
+    for h in extra:
+        h.max_paths = 60000
+    return out[:-1] + extra + out[-1:]
